@@ -61,7 +61,7 @@ var props = map[string]propSpec{
 		{Pkg: "protocol", Fn: "VerifC04NodeRefuses", Validate: 4, MustReach: []string{"accepted", "refused"}},
 		{Pkg: "protocol", Fn: "VerifC04ShortRandom", Validate: 3, MustReach: []string{"authorized", "refused"}},
 	}, Assumptions: with("clock assumption: the honest flow finishes within 1 s of symbolic time (vf.ShortScenario)", "the symbolic run uses the harness's marshal-based storage; file and store-once back ends are covered by C19"),
-		Explanation: "the four honest enrollment flows from SSA (storage wrappers on/off on both sides, application state on/off, roots minted under any certificate lifetime between 2 h and 30 d) with every issued certificate inspected; node-side refusal of foreign, wrong-nonce or wrong-server-key responses and acceptance of the genuine response afterwards; full-entropy server key"},
+		Explanation: "the four honest enrollment flows from SSA (storage wrappers on/off on both sides, application state on/off, plain or store-once server back end, a repeated fetch in the wrapper flows, roots minted under any certificate lifetime between 2 h and 30 d) with every issued certificate inspected; node-side refusal of foreign, wrong-nonce or wrong-server-key responses and acceptance of the genuine response afterwards; full-entropy server key"},
 	"C05": {Harnesses: []harnessSpec{
 		{Pkg: "tls", Fn: "VerifC05KeyIdPath1", Validate: 8, MustReach: []string{"certificates-generated", "rejected"}, Panics: true, CrossSolver: "z3"},
 		{Pkg: "tls", Fn: "VerifC05KeyIdPath2", ShardBits: 2, Validate: 8, MustReach: []string{"certificates-generated", "rejected"}, Panics: true},
@@ -82,7 +82,7 @@ var props = map[string]propSpec{
 		{Pkg: "protocol", Fn: "VerifC07Pending", Validate: 4, MustReach: []string{"pending", "end"}, ShardBits: 3},
 		{Pkg: "protocol", Fn: "VerifC07Dial", Validate: 6, MustReach: []string{"only-rogue-peers", "own-server-answers"}, ShardBits: 2},
 	}, Assumptions: with("client-side TLS handshake contract model (DESIGN 3.5): with InsecureSkipVerify the only guards are VerifyConnection and the server's proof of possession of its leaf key; native twin: a real crypto/tls server (vf.RogueServerConn)", "protocol.Dial runs whole; its outgoing connections are answered by scripted peers (engine: (*net.Dialer).DialContext hands out the peers registered with vf.DialScript; native: a loopback listener splices each accepted connection onto the peer), so name resolution, unix sockets and dial errors other than a refused connection are outside; the server side of a handshake with the node's own server is the listener's real TLS callback (engine) / a real Accept (native)"),
-		Explanation: "real ClientConfigs (nonce, signing, ALPN assembly, chain filtering) and its VerifyConnection / GetClientCertificate callbacks against rogue servers (stale certificate for another nonce, foreign root, self-signed, another node's certificate; with or without the leaf key) for each configuration and dial option set; and against the node's own server when only one of its two roots survives; the pending-authorization path (not-authorized error, nothing stored, success with the same key after authorization) with both sides of the handshake running the library's code; the whole of protocol.Dial (credentials held, or fetched on the first connection of the same call) over scripted peers: own server, rogue peers only, a rogue peer first and the own server next"},
+		Explanation: "real ClientConfigs (nonce, signing, ALPN assembly, chain filtering) and its VerifyConnection / GetClientCertificate callbacks against rogue servers (stale certificate for another nonce, foreign root, self-signed, another node's certificate; with or without the leaf key) for each configuration and dial option set; and against the node's own server when only one of its two roots survives; the pending-authorization path (not-authorized error, nothing stored, success with the same key after authorization) with both sides of the handshake running the library's code; the whole of protocol.Dial (credentials held, or fetched on the first connection of the same call) over scripted peers: own server, rogue peers only, a rogue peer or a refusing server first and the own server next; rogue servers also after the process built configurations for credentials of the rogue's root"},
 	"C08": {Harnesses: []harnessSpec{
 		{Pkg: "rotation", Fn: "VerifC08Rotate", Validate: 16, MustReach: []string{"nothing", "promote", "remint", "startover"}, CrossSolver: "z3"},
 		{Pkg: "rotation", Fn: "VerifC08ReinitRemoveFails", Validate: 4, MustReach: []string{"end"}},
@@ -134,7 +134,7 @@ var props = map[string]propSpec{
 		{Pkg: "protocol", Fn: "VerifC14Accept", Validate: 16, MustReach: []string{"peer-rejected", "peer-accepted", "end"}, Panics: true, ShardBits: 2},
 		{Pkg: "protocol", Fn: "VerifC14AcceptThenHonest", Validate: 8, MustReach: []string{"peer-rejected", "honest-node-connected"}, Panics: true, ShardBits: 3},
 	}, Assumptions: with("crypto/tls's own parsing of raw bytes is trusted not to panic", "TLS handshake contract model (DESIGN 3.5); a peer's fatal alert reaches the server as an error shaped like *net.OpError (Temporary() == false)", "ALPN names are 1..255 bytes (TLS cannot carry others)"),
-		Explanation: "the TLS callback on 2-3 arbitrary ALPN strings (stubbed and real callees) and Accept against arbitrary-ALPN, no-ALPN, non-TLS, aborting and resetting peers, followed by an honest node, a base-listener failure and closure"},
+		Explanation: "the TLS callback on 2-3 arbitrary ALPN strings (stubbed and real callees) and Accept (over storages with and without node-ID lookup) against arbitrary-ALPN, no-ALPN, non-TLS, aborting and resetting peers and a well-formed request naming an unknown node ID, followed by an honest node, a base-listener failure and closure"},
 	"C15": {Harnesses: []harnessSpec{
 		{Pkg: "protocol", Fn: "VerifC15WriteSetStubbed", Loop: 24, Validate: 8, MustReach: []string{"end"}},
 		{Pkg: "protocol", Fn: "VerifC15WriteSet", Loop: 24, Validate: 8, MustReach: []string{"end"}, ShardBits: 4},
@@ -150,7 +150,7 @@ var props = map[string]propSpec{
 		{Pkg: "net", Fn: "VerifC17Routing", Validate: 16, MustReach: []string{"delivered-to-special", "delivered-to-auth", "delivered-to-unauth", "closed-no-listener", "end"}, Panics: true, ShardBits: 4},
 		{Pkg: "net", Fn: "VerifC17LateRegistration", Validate: 4, MustReach: []string{"delivered-to-the-late-listener", "second-connection-has-no-listener", "end"}, Panics: true, ShardBits: 3},
 	}, Assumptions: with("one schedule per path: goroutines are sequentialised coroutines with rendezvous channels (no claim about interleavings, see C18)", "the application's base TLS configuration offers no library-prefixed protocol names", "a mis-routed connection shows up as a deadlock of the harness (it accepts only from the designated sub-listener)"),
-		Explanation: "real SplitListener.Start/GetListener and MultiplexingListener over the real InterceptingListener.Accept: every subset of {specific, non-specific, unauthenticated} sub-listeners, native-connection setting, an authenticated node or a plain TLS client offering an arbitrary extra protocol name (incl. the reserved ones), then base-listener closure; a sub-listener registered between two connections receives the second"},
+		Explanation: "real SplitListener.Start/GetListener and MultiplexingListener over the real InterceptingListener.Accept: every subset of {specific, non-specific, unauthenticated} sub-listeners, native-connection setting, an authenticated node or a plain TLS client offering an arbitrary extra protocol name (incl. the reserved ones), then base-listener closure; a sub-listener registered between two connections receives the second (first connection an authenticated node or a credential fetch, extra protocol listed before or after the request)"},
 	"C19": {Harnesses: []harnessSpec{
 		{Pkg: "storage/inmem", Fn: "VerifC19InmemStep", Validate: 16, MustReach: []string{"end"}},
 		{Pkg: "storage/file", Fn: "VerifC19FileStep", Validate: 16, MustReach: []string{"end"}},
